@@ -1214,6 +1214,8 @@ def gen_history(rng, kind='mixed', with_queries=False, n_ops=None, raising=False
     if with_queries:
         for n in range(0, len(ms) + 2):
             ops.append(['L', n])
+        if rng.random() < 0.3:
+            ops.append(['L', rng.choice([2 ** 31, 2 ** 63 - 1, 2 ** 63, 2 ** 64, 10 ** 30])])      # "to beyond the number of tracks"
     cfg = {'ordered': ordered0, 'ttl_q': ttl0, 'base': base}
     if rules:
         cfg['beh'] = rules
